@@ -65,6 +65,11 @@ def run(F, R):
     _c3.counters_rule(F, R, 'K13')
     if _lf and 'can_pop' in _by:
         _c3.e9_can_pop(F, R, M, _by['can_pop'][0], _lf, rule='K13')
+    # K15: flush is sent exactly when VIRTIO_BLK_F_FLUSH (bit 9) was negotiated: the block feature constants have the specification's
+    # bit numbers and the flush operation is gated on that feature (C08.H2 / H4)
+    from . import C08 as _c8b
+    guard(R, 'K15', 'feature-bits', lambda: _c8b.h2_constants(F, RuleProxy(R, {'H2': 'K15'}, only=lambda inst: 'blk' in inst.lower())))
+    guard(R, 'K15', 'gated', lambda: _c8b.h4_gated(F, RuleProxy(R, {'H4': 'K15'}, only=lambda inst: 'VirtIOBlk' in inst), M))
     # K14: a blocking request behind an unconsumed non-blocking completion pops its own token (C03.E8)
     guard(R, 'K14', 'helper-token', lambda: _c3.e8_helper_token(F, R, M, roles, rule='K14'))
     # K10: with several requests outstanding a further request is refused when the descriptors it needs are not free -
